@@ -574,7 +574,7 @@ let point_name (ts : tstate) : string =
   | WCkW (_, who) -> (match int_of_n who with 0 -> "ckpt.lock_W" | 1 -> "put.ckpt.lock_W" | _ -> "rm.ckpt.lock_W")
   | RRead _ | RRRead _ | GRead _ | GReread _ | ORead _ -> "read.lock_S"
   | RScanned _ -> "remove.scanned" | RRScanned _ -> "remove_range.scanned"
-  | GLooked _ -> "read.looked_up" | GOpen _ -> "cas.open_blob"
+  | GLooked _ -> "read.looked_up" | GOpen _ | GOpenL _ -> "cas.open_blob"
   | OLockI _ -> "orphan.lock_I" | OUnlink _ -> "orphan.unlink"
 let cres_str = function
   | CUnit -> "ok" | CBool b -> if b then "ok:true" else "ok:false" | CNum x -> "ok:" ^ decimal_of_n x
@@ -596,12 +596,12 @@ let parse_ccall (toks : string list) (orphans : bytes list) : ccall =
   | ["delorphans"] -> KDelOrphans orphans
   | _ -> failwith ("bad conc call " ^ String.concat " " toks)
 let state_line (g : cstate) : string =
-  let holder = function None -> "-" | Some t -> string_of_int (int_of_nat t) in
+  let s_held = g.g_S <> None || g.g_R <> [] in
   let cas = String.concat "," (List.map (fun (h, _) -> hex_of_bytes h) g.g_cas) in
-  let idx = if g.g_S = None then entries_str g.g_idx.km else "-" in
+  let idx = if not s_held then entries_str g.g_idx.km else "-" in
   let intents = if g.g_I = None then
       "[" ^ String.concat ";" (List.map (fun (k, h) -> hex_of_bytes k ^ "=" ^ hex_of_bytes h) g.g_bykey) ^ "]" else "-" in
-  Printf.sprintf "I=%s S=%s cas=[%s] idx=%s intents=%s" (holder g.g_I) (holder g.g_S) cas idx intents
+  Printf.sprintf "I=%s S=%s cas=[%s] idx=%s intents=%s" (if g.g_I <> None then "*" else "-") (if s_held then "*" else "-") cas idx intents
 let run_conc (name : string) (lines : string list) =
   let cfg = ref default_cfg in
   let cas0 = ref [] and orphans = ref [] in
